@@ -6,7 +6,7 @@
    combinations within the gap, each once, each with its score — is in props/C02_reported.v (composition with the enumeration
    loop of C05, relative to the solver contract); the de-duplication by (alleles, novel) in major.py:215 never drops anything
    (C02_reported_once).  Every generated case is in addition compared with MajorSpec.run by the harness. *)
-From Aldy Require Import Base Consts Lp Filter MajorModel MajorSpec FilterProofs MajorProofs Consts_here Consts_wf.
+From Aldy Require Import Base Consts Lp Filter MajorModel MajorSpec FilterProofs MajorProofs Consts_here Consts_wf Exprs_cov Tied_cov Tied_cov_major.
 Open Scope Z_scope.
 
 (* the literals of the current source tree are well-formed (regenerated on every run) *)
@@ -232,3 +232,20 @@ Example C02_ex1_feasible :
   let a := canon (candidates ex1) (func_muts ex1) (obs_cn ex1) (hascov ex1) [([49], 1); ([50], 1)] [] in
   feasibleb (gen here ex1) a = true /\ Qeqb (objective (gen here ex1) a) 0 = true.
 Proof. vm_compute. split; reflexivity. Qed.
+
+(* ================================================================= tie to the current source tree
+   The decision expressions below are regenerated from /repo's Python AST on every run (harness/gen_exprs.py -> gen/Exprs_cov.v);
+   each theorem says that the model's definition IS that expression, for all arguments.  A change of the expression in the code
+   breaks the obligation even when no sampled input distinguishes old and new behaviour. *)
+Theorem C02_tie_single_copy : forall I cv m,
+  single_copy_cv I cv m = if single_copy_zero (pcn I (fst m)) then 0%Q else single_copy_val (inZ (total cv m)) (pcn I (fst m)).
+Proof. exact single_copy_major_tied. Qed.
+Goal True. idtac "ASSUME C02_tie_single_copy". Abort.
+Print Assumptions C02_tie_single_copy.
+
+Theorem C02_tie_basic_filter : forall p c m cn,
+  basic_filter p c m cn =
+  basic_pass (inZ (coverage c m)) (basic_min_cov (p_min_coverage p) (inZ (total c m)) (basic_thres 0 cn (p_threshold p))).
+Proof. exact basic_filter_tied. Qed.
+Goal True. idtac "ASSUME C02_tie_basic_filter". Abort.
+Print Assumptions C02_tie_basic_filter.
